@@ -1780,6 +1780,10 @@ def regs_part(run, prop, tier):
     n = 150 if tier == "quick" else 3000
     if prop == "C13":
         scen = [{"id": 1, "form": "near", "n": n}, {"id": 2, "form": "far", "n": n}, {"id": 3, "mode": "shapes", "n": n}]
+        # targets whose first instruction touches an argument / the stack / a vector register, under every kind of leading byte
+        for tk in range(1, 11):
+            for form in ("near", "far"):
+                scen.append({"id": len(scen) + 1, "form": form, "n": max(10, n // 10), "target": tk})
     else:
         scen = [{"id": 1, "form": "bool", "n": n, "v": True}, {"id": 2, "form": "bool", "n": n, "v": False}]
     groups, order, _ = vlib.run_harness("regs", scen, "regs_" + prop, timeout=3000)
